@@ -17,7 +17,7 @@ type sysShadow struct {
 	rom, wram, sram []byte
 }
 
-func newSysShadow(g *vf.Rng) (*sysShadow, error) {
+func newSysShadow(g *vf.Rng, hdrVariant int) (*sysShadow, error) {
 	s := new(emulator.System)
 	fill := func(b []byte) {
 		// cheap seeded fill
@@ -30,6 +30,17 @@ func newSysShadow(g *vf.Rng) (*sysShadow, error) {
 	fill(s.ROM[:])
 	fill(s.WRAM[:])
 	fill(s.SRAM[:])
+	// cartridge-header locations hold small plausible values (map mode, ROM/RAM size, ...): a system
+	// that configures itself from the ROM contents must still follow the mapper
+	for _, base := range []int{0x7FB0, 0xFFB0, 0x40FFB0} {
+		for i := 0x20; i < 0x30; i++ {
+			if hdrVariant >= 0 {
+				s.ROM[base+i] = byte(hdrVariant)
+			} else {
+				s.ROM[base+i] = byte(g.Intn(16))
+			}
+		}
+	}
 	if err := s.CreateEmulator(); err != nil {
 		return nil, err
 	}
@@ -86,7 +97,7 @@ func busWrite(s *emulator.System, a uint32, v byte) (served bool) {
 func C11(r *vf.Run) {
 	r.Rule = "all 2^24 bus addresses: where the emulator serves the address and lorom.BusAddressToPak maps it, a read must follow the designated ROM/SRAM/WRAM cell through two different values (toggle test) and a write must change exactly that cell (full shadow diff of the three arrays after every bank); thorough repeats with three fills and in descending order; plus random-order sequences mixing EaRead, EaWrite and EaRead24_wrap with block locality; a cell is (memory class, bank group, read|write)"
 	r.Exhaustive = true
-	r.Assume = []string{"an address is 'served' when System.Bus.EaRead does not panic", "SRAM cells beyond len(System.SRAM) do not exist; such addresses are judged only if the emulator serves them"}
+	r.Assume = []string{"an address is 'served' when System.Bus.EaRead does not panic", "arrays are filled before CreateEmulator; the cartridge-header bytes ($xxFFD0-$FFDF) take the values 0..15 across workers", "SRAM cells beyond len(System.SRAM) do not exist; such addresses are judged only if the emulator serves them"}
 
 	passes := 1
 	if !r.Quick() {
@@ -100,7 +111,7 @@ func C11(r *vf.Run) {
 		desc := pass == 2
 		r.Parallel(workers, workers, func(w, wi int) {
 			g := r.Rand(fmt.Sprintf("fill%d", pass)).Fork(uint64(wi))
-			h, err := newSysShadow(g)
+			h, err := newSysShadow(g, wi+pass*workers)
 			if err != nil {
 				r.Fail("create-emulator", err.Error(), nil)
 				return
@@ -190,7 +201,7 @@ func C11(r *vf.Run) {
 		chunks := r.N(16, 640)
 		r.Parallel(workers, chunks, func(w, ci int) {
 			g := r.Rand("inter").Fork(uint64(ci))
-			h, err := newSysShadow(g)
+			h, err := newSysShadow(g, ci%12)
 			if err != nil {
 				r.Fail("create-emulator", err.Error(), nil)
 				return
